@@ -294,6 +294,7 @@ def r6_float_to_fixed_guarded(ck, P):
             scale, off, base = af[0], af[1], af[2]
             rnd = af[3] if len(af) > 3 else 'trunc'
             lo = None; hi = None     # accepted d: lo[0] (<|<=) d (<|<=) hi[0]; second member True = closed
+            nan_excluded = False     # an ordered comparison that holds, or an unordered one that fails, is false / true for NaN
             for t, s_ in f.guard_edges(x.bb.id):
                 if t.op != 'br' or not t.a:
                     continue
@@ -309,6 +310,8 @@ def r6_float_to_fixed_guarded(ck, P):
                     continue
                 k = _fc(a1)
                 holds = t.d['succ'][0] == s_       # the comparison is true on the edge towards the conversion
+                if (pred[0] == 'o' and holds) or (pred[0] == 'u' and not holds):
+                    nan_excluded = True
                 p = pred[1:]
                 # on this edge: d p k holds (or its negation)
                 if not holds:
@@ -324,6 +327,9 @@ def r6_float_to_fixed_guarded(ck, P):
             where = '%s (%s)' % (f.name, x.loc())
             if lo is None or hi is None:
                 ck.violation(R, f.name, 'unguarded conversion to i%d' % bits, '%s converts a double to i%d with %s: the value is not bounded %s, so an out-of-range entry is stored wrapped instead of being refused' % (f.name, bits, 'no range guard' if lo is None and hi is None else 'a one-sided guard', 'below' if lo is None else 'above'), x.loc())
+                continue
+            if not nan_excluded:
+                ck.violation(R, f.name, 'NaN reaches the conversion to i%d' % bits, '%s guards its conversion of a double to i%d (%s) only by comparisons that are false for NaN on the side that rejects (d < lo || d > hi): a NaN entry passes both, the conversion is undefined (0x80000000 on x86) and the call reports success with a wrapped entry' % (f.name, bits, x.loc()), x.loc())
                 continue
             # extreme converted values over the accepted interval (scale > 0); rounding to integer never leaves [floor(v), ceil(v)]
             import math
